@@ -38,7 +38,7 @@ func (c18) RequiredBuckets(tier string) []string {
 		"match-table:cell", "match-table:row", "literal-bytes", "metachar-queries",
 		"match:multi", "match:overlap-suppressed", "match:ambiguity", "match:case-fold",
 		"search:overlapping", "search:case-fold", "search:hit", "search:no-hit", "empty-inputs",
-	}, "cli:search", "cli:search -e", "cli:search --no-complement", "cli:search RNA record", "cli:search stream", "cli:search query file", "cli:search several queries", "cli:search query longer than a record")
+	}, "cli:search", "cli:search -e", "cli:search --no-complement", "cli:search RNA record", "cli:search stream", "cli:search query file", "cli:search several queries", "cli:search query longer than a record", "cli:search cache-on")
 }
 
 const (
@@ -429,8 +429,21 @@ func c18Call(op string, seq, q []byte) (obs [][2]int, panicked bool, val interfa
 		obs = append(obs, [2]int{g[0], g[1]})
 	}
 	c18LastSegs = segs
+	// searching reads its arguments: the sequence and the query hold the same
+	// bytes afterwards (the gts search command writes the record back).
+	c18ArgChanged = ""
+	if !panicked {
+		if !bytes.Equal(s.Bytes(), seq) {
+			c18ArgChanged = fmt.Sprintf("the sequence reads %q after the call", s.Bytes())
+		} else if !bytes.Equal(qq.Bytes(), q) {
+			c18ArgChanged = fmt.Sprintf("the query reads %q after the call", qq.Bytes())
+		}
+	}
 	return
 }
+
+// c18ArgChanged says how the last Match/Search call changed an argument ("" if not).
+var c18ArgChanged string
 
 // c18LastSegs is the slice the last Match/Search call returned (for Hold).
 var c18LastSegs []gts.Segment
@@ -500,6 +513,10 @@ func (m c18) match(c *fw.Ctx, kind string, seq, q []byte) {
 	c.Count(enc, kind == "table" || len(definite) > 0)
 
 	obs, panicked, val, site, stack := c18Call("Match", seq, q)
+	if c18ArgChanged != "" {
+		c.Violate("Match:argument-modified", enc, "arguments unchanged", c18ArgChanged)
+		return
+	}
 	if held := c18LastSegs; !panicked {
 		c.Hold(enc, func() string { return fmt.Sprint(held) })
 	}
@@ -596,6 +613,10 @@ func (m c18) search(c *fw.Ctx, seq, q []byte) {
 	}
 	c.Count(enc, len(want) > 0)
 	obs, panicked, val, site, stack := c18Call("Search", seq, q)
+	if c18ArgChanged != "" {
+		c.Violate("Search:argument-modified", enc, "arguments unchanged", c18ArgChanged)
+		return
+	}
 	if held := c18LastSegs; !panicked {
 		c.Hold(enc, func() string { return fmt.Sprint(held) })
 	}
